@@ -650,7 +650,7 @@ def _main_rest(args, out, rng, n_cases, wait_proofs, sc, built):
             ctl_first["res"] = run_ctl_all(ctl_cases, "c")
         except Exception as ex:  # reported as a broken correspondence below
             ctl_first["res"] = ([], "controller stream crashed: %r" % (ex,))
-    probe_cases = [reload_overflow_case(900), reload_overflow_case(1500)]
+    probe_cases = [reload_overflow_case(900), reload_overflow_case(3000)]
     probe = {}
 
     def _probe():
